@@ -99,6 +99,13 @@ def families():
     fam.append(("range-loop", lambda T, a: None if T.signed else main_fn(P(T), [LetMut("acc", x(T)), For(PVar("i"), Range(0, 3, T, suffix=a), [Assign("acc", T, [], Var("i", T), "^")])], Var("acc", T))))
     fam.append(("range-return", lambda T, a: None if T.signed else main_fn(P(T), [], Range(2, 5, T, suffix=a))))
     fam.append(("neg-literal", lambda T, a: main_fn(P(T), [Let(PVar("y"), L(T, -5, a), annot=T if a else None)], Bin("+", Var("y", T), x(T))) if T.signed else None))
+    # unary operators applied to expressions built only from unsuffixed literals: the expected type has to reach the operand
+    fam.append(("neg-neg-literal", lambda T, a: main_fn(P(T), [], Un("-", L(T, -3, a))) if T.signed else None))
+    fam.append(("neg-neg-literal-operand", lambda T, a: main_fn(P(T), [], Bin("+", x(T), Un("-", L(T, -3, a)))) if T.signed else None))
+    fam.append(("neg-if-literal", lambda T, a: main_fn(P(T), [], Un("-", If(c, Block([], L(T, -1, a)), Block([], L(T, -2, a))))) if T.signed else None))
+    fam.append(("neg-sum-literal", lambda T, a: main_fn(P(T), [], Un("-", Bin("-", L(T, -4, a), L(T, 1, a)))) if T.signed else None))
+    fam.append(("not-literal", lambda T, a: main_fn(P(T), [], Un("!", L(T, 5, a)))))
+    fam.append(("not-literal-operand", lambda T, a: main_fn(P(T), [], Bin("^", x(T), Un("!", L(T, 5, a))))))
     fam.append(("neg-literal-operand", lambda T, a: main_fn(P(T), [], Bin("*", x(T), L(T, -1, a))) if T.signed else None))
     fam.append(("pattern-literal", lambda T, a: main_fn(P(T), [], Match(x(T), [(PLit(T, 0, suffix=a), L(T, 1, a)), (PRange(T, 1, 9, True, suffix=a), L(T, 2, a)), (PVar("y"), Var("y", T))], T))))
     fam.append(("cast-literal", lambda T, a: main_fn(P(T), [], Bin("+", Cast(L(I32, 5, a), T) if a else Cast(L(I32, 5, False), T), x(T)))))
